@@ -19,6 +19,9 @@ CHECKS = {
  "C06": dict(cat="exploration", sec="4 (C06)", technique="exhaustive small-scope enumeration of statement trees with naked branches and else-if chains + random trees, against a recursive reference predicate; exact multiset of codes and lints",
    text="Every statement tree of <= 6 (quick) / <= 7 (thorough) nodes over assignment, goto, loop, label, block, if/else with arbitrary (also naked) branches is compiled; the multiset of E800/E801/E840 and, for accepted programs, of L1800 must equal the reference predicate's.",
    note="Trusted: reference predicate in harness/src/c06.rs. Trees without concrete syntax (dangling else) are discarded and counted."),
+ "C09": dict(cat="exploration", sec="4 (C09)", technique="combinatorial + random generation of literals (type x value class x spelling x context), executed and compared with a documentation-derived spec function; exhaustive char byte sweep; lint attribution by source line",
+   text="Integer literals of every integer type at and around every width boundary, in every spelling and in eight syntactic contexts, all 256 char values in three spellings, random byte strings in mixed escape spellings with adjacent-literal concatenation, and 56 malformed forms are compiled; representable values must be accepted without L1142 and print exactly their value, unrepresentable ones must raise L1142 on their line, malformed ones must be rejected with their documented code.",
+   note="Trusted: the spec function in harness/src/c09.rs (value-based range rule). Printed values of out-of-range literals are not asserted."),
  "C14": dict(cat="exploration", sec="4 (C14)", technique="exhaustive small-scope + grammar-based generation, three-way differential (alpha lexer / delta lexer / independent reference lexer), proptest choice-vector shrinking",
    text="Every string of length <= 3 (quick) / <= 4 (thorough) over a 48-symbol alphabet, plus generated token streams with generator-known expected tokens and planted malformed lexemes, are lexed by both real lexers and by an independent reference lexer; kinds, payloads, suffix types, byte spans, lines and error codes must agree. Held-on-everything-explored, exhaustive within the stated small scope.",
    note="Trusted: the reference lexer (harness/src/reflex.rs) as a reading of docs/errors.md; normalisations listed in the evidence assumptions."),
